@@ -10,6 +10,7 @@ mod mvm;
 mod props;
 mod rng;
 mod selftest;
+mod verif;
 mod world;
 
 use framework::{Cfg, Tier};
